@@ -567,6 +567,15 @@ def extract_kind(repo, lay, kind):
             fail("%s: fini does not free exactly the string members" % kind)
         if not re.search(r"\*%s\s*=\s*def_%s;" % (v, kind), fini):
             fail("%s: fini does not restore def_%s" % (kind, kind))
+        # <kind>Assign(): the copy is built in a temporary, refused (target untouched) when a strdup failed
+        asg = norm(function_body(src, "%sAssign" % kind))
+        mem = [flat[i][0] for i in k.dups]
+        conds = ["from->%s&&!tmp.%s" % (m_, m_) for m_ in mem]
+        cond = "from&&" + (conds[0] if len(conds) == 1 else "(" + "||".join("(%s)" % c for c in conds) + ")")
+        want = ("MPT_STRUCT(%s)tmp;mpt_%s_init(&tmp,from);if(%s){mpt_%s_fini(&tmp);return MPT_ERROR(BadOperation);}"
+                "mpt_%s_fini(%s);*%s=tmp;return 0;" % (kind, kind, cond, kind, kind, v, v))
+        if asg != want:
+            fail("%s: unsupported %sAssign(): %r" % (kind, kind, asg[:120]))
 
     # ---------------------------------------------------------------- setter
     setb = function_body(src, "mpt_%s_set" % kind)
@@ -640,7 +649,8 @@ def copy_block(kind, v, body):
         g = re.match(r"if\(len&&from==%s\)\{return 0;\}" % v, inner)
         guard = bool(g)
         rest = inner[g.end():] if g else inner
-        if not re.fullmatch(r"mpt_%s_fini\(%s\);mpt_%s_init\(%s,(len\?from:0|from)\);return (0|len<=0\?len:1);" % (kind, v, kind, v), rest):
+        # the content is replaced through <kind>Assign(): copy built aside, stored only when every string was duplicated
+        if not re.fullmatch(r"(return %sAssign\(%s,len\?from:0\);|if\(%sAssign\(%s,len\?from:0\)<0\)\{return MPT_ERROR\(BadOperation\);\}return len<=0\?len:1;)" % (kind, v, kind, v), rest):
             fail("%s: unsupported sibling copy body: %r" % (kind, rest[:80]))
         head = t[:m.start()]
         if head != "const MPT_STRUCT(%s)*from;int type;if(!src){mpt_%s_fini(%s);return 0;}" % (kind, kind, v):
